@@ -34,11 +34,16 @@ def ids(term):
     return [int(a) for a in re.findall(r"(\d+)", term or "")]
 
 
-SPEC_KEYS = ("id", "entrance", "endpoint", "gen", "class", "items", "duty_type", "slot_add", "duty_slot", "boundary")
+SPEC_KEYS = ("id", "entrance", "endpoint", "gen", "class", "items", "duty_type", "slot_add", "duty_slot", "boundary", "fault_at", "fault_kind", "prime")
+
+
+HIST = {}
 
 
 def spec_of(c):
-    return {k: c[k] for k in SPEC_KEYS if k in c}
+    d = {k: c[k] for k in SPEC_KEYS if k in c}
+    d.update(HIST)   # the components are long-lived: a replay re-runs the history that preceded the case
+    return d
 
 
 def cls(c):
@@ -49,6 +54,12 @@ def cls(c):
         return "field"
     if k.startswith("multi_one_bad"):
         return "multi_one_bad"
+    if k.startswith("fault:"):
+        return "fault:" + k.split(":")[1]
+    if k.startswith("replayed_signature_altered"):
+        return "replayed_signature_altered"
+    if k.startswith("gate_slot:"):
+        return "gate_slot"
     return k
 
 
@@ -60,6 +71,8 @@ def main():
         "the abstract description of a submission (which validator the component resolves it to, signing root of the object as submitted, signature term, proposal-equals-agreed flag, inner-selection-proof flag) is computed by the harness with oracles independent of the code under test: own signing-root computation from the raw eth2 objects, the table of signatures the harness made, its validator tables, and what its environment callbacks (duty definitions, pubkey-by-attestation, validator set) answered",
         "error classes are compared up to 'some signature check failed' (the validator API reports an inner selection-proof failure with the same text as an outer signature failure); every rejection ahead of any signature check (validator/duty lookup, malformed object) is one class EPre",
         "the expected-signature oracle takes domain name and signing epoch from the OBJECT per the consensus spec (attestation: target epoch; exit: exit epoch; registration: genesis domain; others: epoch of the object's slot), never from core/eth2signeddata.go",
+        "validatorapi.Component, the parsigex handler, its verifier and the gater are created once and serve every case of the run in order (as in production), so the objects of the default epoch, of both fork boundaries of the beacon mock and back again pass through the same components; a replay re-runs the history that preceded the failing case",
+        "env faults: the eth2 client the components verify with is the beacon mock behind a wrapper that can make the k-th Spec/Domain/GenesisDomain/ForkSchedule lookup of a call fail with context.DeadlineExceeded, context.Canceled, a generic error, or hang until the caller's context ends (validator API: the harness cancels the request; parsigex: the handler's receive timeout, shortened on a second instance sharing verifier and gater). The label says whether the fault fired; under a fired fault the model's decision is Reject with any error class",
         "endpoints not covered: SubmitValidatorRegistrations takes nothing in (checked: it never calls a subscriber); builder registrations are created by charon itself, not submitted by the VC; phase0/altair proposals are refused by the code ('unsupported version') and not generated; the HTTP router/JSON decoding in front of the Component is not driven (C14 covers decoding)",
         "parsigex is driven through the stream handler it registers (p2p.RegisterHandler) on a stub host, not over a libp2p network; the sender identity is not used by the verifier",
         "reflection enumerates leaf fields of the raw eth2 structures, first two (thorough: six) elements of every list; a field whose alteration does not change the signing root (signature-independent metadata, e.g. aggregation bits, blobs) is expected to be let in and is checked as such",
@@ -68,6 +81,8 @@ def main():
     leaves = 1000 if R.thorough else 5
     elems = 6 if R.thorough else 2
     rc, out, od = vp.go_harness("gate", env_extra={"VERIF_LEAVES": leaves, "VERIF_ELEMS": elems})
+    if not os.environ.get("VERIF_REPLAY"):
+        HIST.update({"hist_seed": R.seed, "hist_leaves": leaves, "hist_elems": elems})
     if rc != 0:
         R.broke("correspondence:harness gate failed to run", out[-3000:])
         R.finish()
@@ -85,13 +100,15 @@ def main():
                           "(NewParSigEx + NewEth2Verifier + NewDutyGater); non-trivial = the request carries an alteration of an otherwise valid submission "
                           "(each reflection-enumerated leaf field with the original signature; the same re-signed with the right share; wrong share; wrong validator; other domain; other fork; zero/random/infinity/foreign-key signature; "
                           "validator unknown to the beacon node / not in the lock / index of another validator; peers: out-of-range/zero/negative/other share index, entry filed under another/unknown public key, "
-                          "duty outside the gater window (epoch offsets, the exact first/last slot of the window, and absolute slots 2^31, 2^53, 2^60, 2^63-1, 2^63, 2^64-1 around validly signed objects), objects whose own signing epoch is the first epoch of a fork of the beacon mock (2048, 50688; attestations with the slot still in the previous fork) signed for the own epoch and with the neighbouring fork's domain, invalid duty type, bare-signature duty type, duty-type confusion, one bad entry among good ones at each position); distinct by hash of (endpoint, type, class, label)")
+                          "duty outside the gater window (epoch offsets, the exact first/last slot of the window, and absolute slots 2^31, 2^53, 2^60, 2^63-1, 2^63, 2^64-1 around validly signed objects), objects whose own signing epoch is the first epoch of a fork of the beacon mock (2048, 50688; attestations with the slot still in the previous fork) signed for the own epoch and with the neighbouring fork's domain, and objects signed with a far-away fork's domain after the same component served that fork, a beacon-node lookup fault of each kind at each lookup position around valid / wrong-share / wrong-domain / altered submissions, a signature that was let in once re-presented over altered content, invalid duty type, bare-signature duty type, duty-type confusion, one bad entry among good ones at each position); distinct by hash of (endpoint, type, class, label)")
     table = collections.defaultdict(lambda: collections.Counter())
     outcome = collections.Counter()
     pre_texts = collections.Counter()
     for c in cs:
         table[c["endpoint"]][cls(c)] += 1
         outcome["%s:%s" % (c["entrance"], c["err"] or "delivered")] += 1
+        if c.get("fault"):
+            outcome["%s:fault_fired:%s" % (c["entrance"], c.get("fault_kind"))] += 1
         if c["err"] == "EPre":
             pre_texts[re.sub(r"[0-9a-fx]{8,}|\d+", "#", c["err_text"])[:70]] += 1
     gens = collections.defaultdict(set)
@@ -127,7 +144,10 @@ def main():
         hits = ids(vp.parse_marked(out, "monitor_hits"))
         for cid in hits:
             c = byid[cid]
-            R.violation("delivered-invalid:%s" % c["endpoint"], "%s (%s) handed subscribers a partial signature that is not valid per the rule; alteration %s; delivered %s" % (c["endpoint"], c["gen"], c["class"], c["calls"]),
+            key = "delivered-invalid:%s" % c["endpoint"]
+            if c.get("fault") and any(c["calls"]):
+                key = "delivered-on-aborted-verification:%s" % c["endpoint"]
+            R.violation(key, "%s (%s) handed subscribers a partial signature that is not valid per the rule; alteration %s; delivered %s" % (c["endpoint"], c["gen"], c["class"], c["calls"]),
                         dict(spec_of(c), observed={"err": c["err_text"], "calls": c["calls"]}, label=c["label"],
                              how="./check C10 --replay <this file> rebuilds the request from the spec and calls the handler in /repo"))
         for cid in rej:
